@@ -171,6 +171,39 @@ def gen_type_family(rng):
     return layers, excl, call
 
 
+def gen_limit_family(rng):
+    """overloads with an Iterable()-typed parameter next to plainly typed ones, called with a collection longer
+    than the engine's iterator limit: converting the argument for a candidate that loses (or does not match at all)
+    must not decide the outcome - only the overload that runs converts its arguments"""
+    tx = rng.choice(['tuple', 'Seq', 'object', 'Iter', 'anyof:A,tuple'])
+    ty0, ty1 = rng.choice([('int', 'str'), ('int', 'object'), ('str', 'int'), ('int', 'int'), ('object', 'str')])
+    def mk(tag, t, ty, d):
+        params = [fam.ParamSpec('x', t, rng.random() < 0.3), fam.ParamSpec('y', ty, True, None, d)]
+        return fam.OverloadSpec(tag, params, kind='function')
+    o0 = mk('I0', 'Iter', ty0, rng.random() < 0.3)
+    o1 = mk('I1', tx, ty1, rng.random() < 0.3)
+    shape = rng.choice(('same-layer', 'iter-nearer', 'iter-farther', 'single'))
+    if shape == 'same-layer':
+        layers, excl = [[o0, o1] if rng.random() < 0.5 else [o1, o0]], [False]
+    elif shape == 'iter-nearer':
+        layers, excl = [[o0], [o1]], [False, False]
+    elif shape == 'iter-farther':
+        layers, excl = [[o1], [o0]], [False, False]
+    else:
+        layers, excl = [[o0]], [False]
+    x = rng.choice(['T', 'T', 'T', 't', 'n', 's'])
+    y = rng.choice(['i', 's', 'const:int', 'const:str', 'n'])
+    r = rng.random()
+    if r < 0.6:
+        call = mr.CallSpec([x, y])
+    elif r < 0.8:
+        call = mr.CallSpec([x], {'y': y})
+    else:
+        call = mr.CallSpec([x])
+    call.limit = True
+    return layers, excl, call
+
+
 def gen_call(rng, layers):
     overloads = [o for layer in layers for o in layer]
     any_no_kwargs = any(o.no_kwargs for o in overloads)
@@ -208,6 +241,7 @@ class Runner:
     def __init__(self, rec):
         self.rec = rec
         self.eng = yq.engine()
+        self.eng_limit = yq.engine({'yaql.limitIterators': 8})
         self.root = yaql.create_context()
         self.ticker = hooks.Ticker()
         self.base = self.root.create_child_context()
@@ -275,13 +309,20 @@ class Runner:
         rec = self.rec
         text, vars_, probes = self.render(call)
         want = mr.resolve(layers, exclusive, call)
+        limited = getattr(call, 'limit', False)
+        if limited and want['outcome'][0] == 'ran':
+            winner = next(o for layer in layers for o in layer if o.tag == want['outcome'][1])
+            for prm in winner.params:
+                if prm.tname == 'Iter' and want['outcome'][2].get(prm.name) == ('arg', 'T'):
+                    # the overload that runs converts its own arguments: the over-long collection is refused there
+                    want = dict(want, outcome=('error', 'other:CollectionTooLargeException'), rule=want['rule'] + ' + iterator limit')
         top = self.build(layers, exclusive)
         ctx = top.create_child_context()
         for k, v in vars_.items():
             ctx[k] = v
         self.ticker.reset()
         try:
-            st = self.eng(text)
+            st = (self.eng_limit if limited else self.eng)(text)
         except Exception as e:
             rec.inconc('call %r does not parse: %s' % (text, e))
             return
@@ -431,6 +472,8 @@ def _is_value(g, key):
         return g == 7 and type(g) is int
     if key == 's':
         return g == 'txt'
+    if key == 'T':
+        return g == 'LONG'
     if key == 't':
         return list(g) == [1, 2] if isinstance(g, (list, tuple)) else False      # results are finalised: tuples come back as lists
     if key == 'f':
@@ -454,6 +497,12 @@ def run_shard(spec, rec):
                 rec.count('families')
                 rec.count('families.keyword-specificity')
                 r.check(layers, exclusive, call, '%s/%d/kw' % (spec['name'], i))
+                continue
+            if i % 6 == 4:
+                layers, exclusive, call = gen_limit_family(rng)
+                rec.count('families')
+                rec.count('families.iterator-limit')
+                r.check(layers, exclusive, call, '%s/%d/limit' % (spec['name'], i))
                 continue
             if i % 6 == 2:
                 layers, exclusive, call = gen_type_family(rng)
@@ -489,6 +538,7 @@ def replay(data, rec):
         layers = [[spec_from_desc(d) for d in layer] for layer in data['layers']]
         c = data['call']
         call = mr.CallSpec(c['args'], c['kwargs'], c['method'], c['bad_keyword'])
+        call.limit = c.get('limit', False)
         print('call: %s' % r.render(call)[0])
         print('model: %r' % (mr.resolve(layers, data['exclusive'], call),))
         r.check(layers, data['exclusive'], call, 'replay')
